@@ -80,7 +80,7 @@ func allCts(g geom.Geometry) []string {
 
 func structStepOnPanic(act string, arg interface{}) Event {
 	e := Event{"t": "Point", "ct": "XY", "c": []string{}}
-	return Event{"act": act, "arg": arg, "got": e, "cts": []string{}, "dump": []Event{}, "coords": [][]string{}, "coordsct": "XY", "xyops": []string{}, "panic": ""}
+	return Event{"act": act, "arg": arg, "got": e, "cts": []string{}, "dump": []Event{}, "coords": [][]string{}, "coordsct": "XY", "xyops": []string{}, "summary": "", "str": "", "nrings": 0, "ntotal": 0, "panic": ""}
 }
 
 func applyStructOp(g geom.Geometry, act string, arg T) geom.Geometry {
@@ -118,6 +118,8 @@ func applyStructOp(g geom.Geometry, act string, arg T) geom.Geometry {
 			return geom.NewMultiPolygon([]geom.Polygon{g.MustAsPolygon(), o.MustAsPolygon()}).AsGeometry()
 		}
 		panic("mkmulti on " + g.Type().String())
+	case "viactor":
+		return viaCtor(g)
 	case "mkpoly":
 		return geom.NewPolygon([]geom.LineString{g.MustAsLineString(), buildTree(arg).MustAsLineString()}).AsGeometry()
 	case "snap0":
@@ -144,6 +146,92 @@ func applyStructOp(g geom.Geometry, act string, arg T) geom.Geometry {
 	panic("unknown act " + act)
 }
 
+// viaCtor rebuilds g through the convenience constructors (NewPointXYZ, NewPolygonXYM, ...) from its raw ordinates;
+// the result must be the same geometry. What those constructors cannot express (an empty Point, a MultiPoint with an
+// empty member) is passed through unchanged.
+func viaCtor(g geom.Geometry) geom.Geometry {
+	ct := g.CoordinatesType()
+	fl := func(s geom.Sequence) []float64 {
+		out := []float64{}
+		for i := 0; i < s.Length(); i++ {
+			c := s.Get(i)
+			out = append(out, c.X, c.Y)
+			if ct.Is3D() {
+				out = append(out, c.Z)
+			}
+			if ct.IsMeasured() {
+				out = append(out, c.M)
+			}
+		}
+		return out
+	}
+	rings := func(p geom.Polygon) [][]float64 {
+		out := [][]float64{}
+		for _, r := range p.DumpRings() {
+			out = append(out, fl(r.Coordinates()))
+		}
+		return out
+	}
+	k := 0
+	switch ct {
+	case geom.DimXYZ:
+		k = 1
+	case geom.DimXYM:
+		k = 2
+	case geom.DimXYZM:
+		k = 3
+	}
+	switch g.Type() {
+	case geom.TypePoint:
+		c, ok := g.MustAsPoint().Coordinates()
+		if !ok {
+			return g
+		}
+		return []geom.Point{geom.NewPointXY(c.X, c.Y), geom.NewPointXYZ(c.X, c.Y, c.Z), geom.NewPointXYM(c.X, c.Y, c.M), geom.NewPointXYZM(c.X, c.Y, c.Z, c.M)}[k].AsGeometry()
+	case geom.TypeLineString:
+		f := fl(g.MustAsLineString().Coordinates())
+		return []func(...float64) geom.LineString{geom.NewLineStringXY, geom.NewLineStringXYZ, geom.NewLineStringXYM, geom.NewLineStringXYZM}[k](f...).AsGeometry()
+	case geom.TypePolygon:
+		p := g.MustAsPolygon()
+		if p.NumRings() == 1 {
+			f := fl(p.ExteriorRing().Coordinates())
+			return []func(...float64) geom.Polygon{geom.NewSingleRingPolygonXY, geom.NewSingleRingPolygonXYZ, geom.NewSingleRingPolygonXYM, geom.NewSingleRingPolygonXYZM}[k](f...).AsGeometry()
+		}
+		return []func(...[]float64) geom.Polygon{geom.NewPolygonXY, geom.NewPolygonXYZ, geom.NewPolygonXYM, geom.NewPolygonXYZM}[k](rings(p)...).AsGeometry()
+	case geom.TypeMultiPoint:
+		mp := g.MustAsMultiPoint()
+		for i := 0; i < mp.NumPoints(); i++ {
+			if mp.PointN(i).IsEmpty() {
+				return g
+			}
+		}
+		return []func(...float64) geom.MultiPoint{geom.NewMultiPointXY, geom.NewMultiPointXYZ, geom.NewMultiPointXYM, geom.NewMultiPointXYZM}[k](fl(mp.Coordinates())...).AsGeometry()
+	case geom.TypeMultiLineString:
+		m := g.MustAsMultiLineString()
+		ls := [][]float64{}
+		for i := 0; i < m.NumLineStrings(); i++ {
+			ls = append(ls, fl(m.LineStringN(i).Coordinates()))
+		}
+		return []func(...[]float64) geom.MultiLineString{geom.NewMultiLineStringXY, geom.NewMultiLineStringXYZ, geom.NewMultiLineStringXYM, geom.NewMultiLineStringXYZM}[k](ls...).AsGeometry()
+	case geom.TypeMultiPolygon:
+		m := g.MustAsMultiPolygon()
+		ps := [][][]float64{}
+		for i := 0; i < m.NumPolygons(); i++ {
+			ps = append(ps, rings(m.PolygonN(i)))
+		}
+		return []func(...[][]float64) geom.MultiPolygon{geom.NewMultiPolygonXY, geom.NewMultiPolygonXYZ, geom.NewMultiPolygonXYM, geom.NewMultiPolygonXYZM}[k](ps...).AsGeometry()
+	}
+	gc := g.MustAsGeometryCollection()
+	if gc.NumGeometries() == 0 {
+		return g
+	}
+	var ms []geom.Geometry
+	for i := 0; i < gc.NumGeometries(); i++ {
+		ms = append(ms, viaCtor(gc.GeometryN(i)))
+	}
+	return geom.NewGeometryCollection(ms).AsGeometry()
+}
+
 func structObserve(st Event, g geom.Geometry, setOps bool) {
 	st["got"] = projectTree(g)
 	st["cts"] = allCts(g)
@@ -168,6 +256,21 @@ func structObserve(st Event, g geom.Geometry, setOps bool) {
 		}
 	}
 	st["xyops"] = xy
+	st["summary"], st["str"] = g.Summary(), g.String()
+	st["nrings"], st["ntotal"] = 0, 0
+	switch g.Type() {
+	case geom.TypePolygon:
+		st["nrings"] = g.MustAsPolygon().NumRings()
+	case geom.TypeMultiPolygon:
+		mp := g.MustAsMultiPolygon()
+		n := 0
+		for i := 0; i < mp.NumPolygons(); i++ {
+			n += mp.PolygonN(i).NumRings()
+		}
+		st["nrings"] = n
+	case geom.TypeGeometryCollection:
+		st["ntotal"] = g.MustAsGeometryCollection().NumTotalGeometries()
+	}
 }
 
 func structOnPanic(c Case) Event {
@@ -201,7 +304,7 @@ func structExec(c Case) Event {
 	return Event{"start": start, "steps": steps, "nt": !g.IsEmpty(), "nevents": len(steps)}
 }
 
-var structActs = []string{"force", "force", "force2d", "reverse", "swapxy", "asmulti", "mkgc", "mkgc1", "mkmulti", "mkpoly", "snap0", "densify", "wkb", "wkt", "forcecw", "forceccw"}
+var structActs = []string{"force", "force", "force2d", "reverse", "swapxy", "asmulti", "mkgc", "mkgc1", "mkmulti", "mkpoly", "viactor", "snap0", "densify", "wkb", "wkt", "forcecw", "forceccw"}
 
 func structGen(r *rand.Rand, n int, tier string, emit func(Case)) {
 	for i := 0; i < n; i++ {
